@@ -1471,15 +1471,23 @@ func (c *Conn) unpackDatagram(buf []byte) ([][]byte, error) {
 		return nil, nil
 	}
 	common := dtlsstate.CommonState(c.state)
-	if common.LocalVersion.Equal(protocol.Version1_3) ||
+	cidLength := len(common.LocalConnectionIDForInboundRecords())
+	state13, is13 := c.state.(*dtlsstate.State13)
+	// A dual-stack client holds a provisional DTLS 1.3 state until the server's answer pins the
+	// version. A DTLS 1.3 server that does not ask for a cookie answers with its ServerHello and
+	// the first protected records in one datagram, which only the DTLS 1.3 rules can split.
+	undecided := is13 && !common.LocalVersion.Equal(protocol.Version1_3)
+	if common.LocalVersion.Equal(protocol.Version1_3) || undecided ||
 		protocol.IsDTLS13Ciphertext(protocol.ContentType(buf[0])) {
-		cidLength := len(common.LocalConnectionIDForInboundRecords())
-		state13, is13 := c.state.(*dtlsstate.State13)
-
-		return recordlayer.UnpackDatagram13(buf, cidLength, is13 && state13.CID.Negotiated, true)
+		pkts, err := recordlayer.UnpackDatagram13(buf, cidLength, is13 && state13.CID.Negotiated, true)
+		if err == nil || !undecided {
+			return pkts, err
+		}
+		// Not a DTLS 1.3 datagram, e.g. the abbreviated flight of a DTLS 1.2 server with its
+		// change_cipher_spec record.
 	}
 
-	return recordlayer.ContentAwareUnpackDatagram(buf, len(common.LocalConnectionIDForInboundRecords()))
+	return recordlayer.ContentAwareUnpackDatagram(buf, cidLength)
 }
 
 func (c *Conn) queueableCiphertextEpoch(epochLow uint8, remoteEpoch uint16) bool {
